@@ -129,6 +129,15 @@ CHECKS = {
                      "they are covered by the BOUNDED stand-in run in both tiers (evidence.bounded_parts) and never counted as proved. "
                      "`re` semantics assumed (validated boundedly). Repaired by fix: ae02eb6 (strict glob blamed an existing literal "
                      "component)."),
+    "C09": dict(cat="proof", design="3/C09",
+                text="_is_last (look-ahead generator), RenderTree.__iter__, the recursive row generator __next and the row assembly "
+                     "__item are proved from their real bodies equal to the recursive specification ROWS (one row per node while "
+                     "level < maxlevel or no bound, childiter-ordered children, 'has a following sibling' flag appended per level; "
+                     "root row empty, otherwise joined bar/blank segments plus continue/end branch); the built-in styles pass "
+                     "three literals of equal width (syntactic obligations).",
+                tech="contract-based deductive verification (z3 sequences/strings/datatypes), inductive lemma in SMT",
+                note="str(RenderTree), by_attr(), _format_row_any and the Node/AnyNode reprs, and the closed-form reading (bridge L8), "
+                     "are covered by the BOUNDED stand-in run in both tiers (evidence.bounded_parts), never counted as proved."),
 }
 REASONS = {}
 
